@@ -64,7 +64,8 @@ def build_extension(notes: list) -> tuple[Path, dict]:
     pkg = BUILD / tag
     for old_pkg in BUILD.glob("pkg-*"):            # shadow packages of scratch trees that are gone / older than a day
         try:
-            if old_pkg != pkg and time.time() - old_pkg.stat().st_mtime > 86400:
+            src = (old_pkg / ".repo").read_text().strip() if (old_pkg / ".repo").exists() else ""
+            if old_pkg != pkg and (not src or not Path(src).exists() or time.time() - old_pkg.stat().st_mtime > 86400):
                 shutil.rmtree(old_pkg, ignore_errors=True)
         except OSError:
             pass
@@ -109,6 +110,7 @@ def build_extension(notes: list) -> tuple[Path, dict]:
                          + "); the INSTALLED " + str(so) + " was used instead - kernel edits in rust/ are not seen by this run")
         # shadow package: python files of the working tree + the library
         (pkg / "solvor").mkdir(parents=True, exist_ok=True)
+        (pkg / ".repo").write_text(str(REPO) + "\n")
         subprocess.run(["rsync", "-a", "--delete", "--exclude", "__pycache__", "--exclude", "*.so", "--exclude", "*.pyc",
                         str(REPO / "solvor") + "/", str(pkg / "solvor") + "/"], check=True, capture_output=True)
         dst = pkg / "solvor" / SO_NAME
@@ -196,6 +198,8 @@ def call_str(case, backend="<b>"):
     c = case
     e = [tuple(x) for x in c["edges"]]
     b = "" if backend in (None, "<b>") else f", backend={backend!r}"
+    if c.get("container") == "tuple":
+        e = tuple(e)
     fn = c["fn"]
     if fn == "floyd_warshall":
         return f"floyd_warshall({c['n']}, {e}, directed={c['directed']}{b})"
@@ -235,7 +239,7 @@ def canon(x):
 
 def observe(case, backend):
     """-> ('ok', {'status','solution','objective','iterations', 'type'}) | ('exc', ..) | ('hang',)"""
-    r = guarded(call, case, backend, timeout=5)
+    r = guarded(call, case, backend, timeout=5 if case["n"] <= 64 else 40)
     if r[0] != "ok":
         return r
     res = r[1]
@@ -293,7 +297,7 @@ def run_case_isolated(case):
     """Each back-end in its own child (used for shrinking and for cases that killed a batch)."""
     outs = {}
     for b in ("python", "rust", "default"):
-        r = _in_child(observe, case, {"python": "python", "rust": "rust", "default": None}[b], timeout=8.0)
+        r = _in_child(observe, case, {"python": "python", "rust": "rust", "default": None}[b], timeout=8.0 if case["n"] <= 64 else 60.0)
         outs[b] = r[1] if r[0] == "ok" else (("hang",) if r[0] == "hang" else ("exc", "Crash", r[1]))
     return outs
 
@@ -314,7 +318,7 @@ def run_cases(cases, chunk=60):
     results = []
     for k in range(0, len(cases), chunk):
         part = cases[k:k + chunk]
-        r = _in_child(_batch, part, timeout=10.0 + 1.0 * len(part))
+        r = _in_child(_batch, part, timeout=40.0 + 2.0 * len(part))
         if r[0] == "ok" and len(r[1]) == len(part) and all(x is not None for x in r[1]):
             results += r[1]
         else:
@@ -655,7 +659,9 @@ def judge(case, outs):
         # the stopping rule (max |delta| < tol) decides the status; not judged when the reference run is too close to the threshold
         first = next((k + 1 for k, (_, md) in enumerate(ex) if md < tol), None)
         rel = 1e-6 if exact_ref else 1e-3
-        margin_ok = all(abs(float(md) - tol) > tol * rel for _, md in ex)
+        # the implementations iterate in binary64: a |delta| within ~1e-13 of tol (or of 0, for tol below the float resolution) cannot be
+        # predicted by the reference run - then only "python and rust agree" is demanded
+        margin_ok = all(abs(float(md) - tol) > tol * rel + 1e-13 for _, md in ex)
         ctx_margin = "safe" if margin_ok else "near-threshold"
         case["_pr_margin"] = ctx_margin
         if margin_ok:
@@ -912,12 +918,12 @@ def shape_edges(rng, n, shape):
 SHAPES = ["chain", "chain-rev-listed", "cycle", "star-out", "star-in", "ladder", "fan", "complete", "two-cycles", "bidirected-tree", "parallel"]
 
 
-def gen_history(rng, fn, n=None):
+def gen_history(rng, fn, n=None, shape=None):
     """named shapes that force rare internal histories: Bellman-Ford needing all n-1 rounds (chain listed backwards), negative cycle
     closed by the last edge, Dijkstra with many decrease-keys / stale heap entries, zero-weight cycles, DFS nodes stacked several times,
     union-find trees of height >= 3 with later finds through them, Kahn with all / one source, dangling-only PageRank"""
     n = n or rng.choice([2, 3, 4, 5, 6, 8, 9, 12, 16])
-    shape = rng.choice(SHAPES)
+    shape = shape or rng.choice(SHAPES)
     pairs = shape_edges(rng, n, shape)
     if rng.random() < 0.3:
         rng.shuffle(pairs)
@@ -998,13 +1004,12 @@ def gen_sized(rng, fn, big=False):
     and named shapes; 801 / 1025 / 2049 for the linear-time functions in the thorough tier"""
     sizes = [17, 33, 65] if fn == "floyd_warshall" else [17, 33, 65, 129, 257]
     if big and fn not in ("floyd_warshall", "strongly_connected_components_edges", "pagerank_edges"):
-        sizes += [801, 1025, 2049]
+        sizes += [801, 1025] + ([2049] if fn != "bellman_ford" else [])      # bellman_ford and its oracle are O(n * m)
     n = rng.choice(sizes) + rng.choice([-1, 0, 1])
     if rng.random() < 0.5:
-        shape = rng.choice([s_ for s_ in SHAPES if s_ not in ("complete", "fan") or n <= 66])
-        if fn == "strongly_connected_components_edges" and n > 300:
-            shape = "two-cycles" if n < 600 else "star-out"
-        c = gen_history(rng, fn, n)
+        dense_ok = n <= 66 and not (fn == "bellman_ford" and n > 34)
+        shape = rng.choice([s_ for s_ in SHAPES if s_ not in ("complete", "fan") or dense_ok])
+        c = gen_history(rng, fn, n, shape)
         c["_family"] = "S-" + c["_family"]
         return c
     c = {"fn": fn, "n": n, "_family": "S-random"}
@@ -1062,6 +1067,332 @@ def hardening_cases(rng, quick_n, big=False):
         out += sweep_pagerank(rng)
     return out
 
+
+
+
+# ====================================================================== class H: rare internal histories (event-directed top-up)
+# Instrumented reference ports of the nine algorithms (written here, independent of both back-ends) report which rare internal events
+# a case triggers; the generator is topped up until every event has been seen a few times in the run.
+EVENTS = {
+    "bellman_ford": ["bf:all-rounds", "bf:early-exit", "bf:neg-cycle", "bf:neg-edge-no-cycle", "bf:relax-overwrites-parent", "bf:zero-cycle"],
+    "floyd_warshall": ["fw:neg-self-loop", "fw:neg-cycle-len>=2", "fw:undirected-antiparallel-min", "fw:improve-via-k", "fw:unreachable-pair"],
+    "dijkstra_edges": ["dij:stale-pop", "dij:decrease-key>=3", "dij:zero-edge", "dij:target-unreachable", "dij:equal-cost-ties"],
+    "bfs_edges": ["bfs:multi-parent-choice", "bfs:target-at-depth>=3", "bfs:self-loop", "bfs:unreachable"],
+    "dfs_edges": ["dfs:multi-push", "dfs:push-vs-pop-marking-differ", "dfs:path-longer-than-shortest", "dfs:unreachable"],
+    "kruskal": ["kr:early-break", "kr:rejected-edge", "kr:uf-height>=3", "kr:equal-rank-union", "kr:weight-ties", "kr:forest"],
+    "pagerank_edges": ["pr:dangling", "pr:no-dangling", "pr:converges-at-max_iter", "pr:parallel-edges", "pr:self-loop"],
+    "strongly_connected_components_edges": ["scc:nested-cycles", "scc:cross-edge-to-finished", "scc:lowlink-via-on-stack", "scc:singleton-self-loop"],
+    "topological_sort_edges": ["topo:queue>=3", "topo:orders-differ-fifo-lifo", "topo:cycle-behind-dag-prefix", "topo:parallel-edges"],
+}
+
+
+def events(case):
+    fn, n = case["fn"], case["n"]
+    E = [tuple(e) for e in case["edges"]]
+    ev = set()
+    if n == 0 or n > 40 or len(E) > 200:
+        return ev
+    adj = {}
+    for e in E:
+        adj.setdefault(e[0], []).append(e[1:] if len(e) == 3 else e[1])
+    if fn == "bellman_ford":
+        s = case["source"]
+        d = [INF] * n
+        par = [None] * n
+        d[s] = 0
+        rounds = 0
+        for _ in range(n - 1):
+            upd = False
+            rounds += 1
+            for u, v, w in E:
+                if d[u] < INF and d[u] + w < d[v]:
+                    if par[v] is not None:
+                        ev.add("bf:relax-overwrites-parent")
+                    d[v], par[v], upd = d[u] + w, u, True
+            if not upd:
+                ev.add("bf:early-exit")
+                break
+        else:
+            if n > 2:
+                ev.add("bf:all-rounds")
+        neg = any(d[u] < INF and d[u] + w < d[v] for u, v, w in E)
+        if neg:
+            ev.add("bf:neg-cycle")
+        elif any(w < 0 and d[u] < INF for u, v, w in E):
+            ev.add("bf:neg-edge-no-cycle")
+        if not neg and any(d[u] < INF and d[u] + w == d[v] and par[v] != u and v != u and d[v] == d[u] for u, v, w in E if w == 0):
+            ev.add("bf:zero-cycle")
+    elif fn == "floyd_warshall":
+        if any(u == v and w < 0 for u, v, w in E):
+            ev.add("fw:neg-self-loop")
+        arcs = E if case["directed"] else E + [(v, u, w) for u, v, w in E]
+        D = [[0 if i == j else INF for j in range(n)] for i in range(n)]
+        for u, v, w in arcs:
+            D[u][v] = min(D[u][v], w)
+        if not case["directed"] and any(any(a == v and b == u and c != w for a, b, c in E) for u, v, w in E if u != v):
+            ev.add("fw:undirected-antiparallel-min")
+        for k in range(n):
+            for i in range(n):
+                for j in range(n):
+                    if D[i][k] + D[k][j] < D[i][j]:
+                        D[i][j] = D[i][k] + D[k][j]
+                        if i != j:
+                            ev.add("fw:improve-via-k")
+        if any(D[i][i] < 0 for i in range(n)) and not any(u == v and w < 0 for u, v, w in E):
+            ev.add("fw:neg-cycle-len>=2")
+        if any(D[i][j] == INF for i in range(n) for j in range(n)):
+            ev.add("fw:unreachable-pair")
+    elif fn == "dijkstra_edges":
+        import heapq
+
+        s = case["source"]
+        d = {s: 0}
+        dec = {}
+        h = [(0, s)]
+        done = set()
+        while h:
+            c, u = heapq.heappop(h)
+            if u in done:
+                ev.add("dij:stale-pop")
+                continue
+            done.add(u)
+            if any(c2 == c and u2 not in done for c2, u2 in h):
+                ev.add("dij:equal-cost-ties")
+            for v, w in adj.get(u, ()):
+                if w == 0:
+                    ev.add("dij:zero-edge")
+                if v not in done and c + w < d.get(v, INF):
+                    if v in d:
+                        dec[v] = dec.get(v, 0) + 1
+                        if dec[v] >= 3:
+                            ev.add("dij:decrease-key>=3")
+                    d[v] = c + w
+                    heapq.heappush(h, (c + w, v))
+        if case["target"] is not None and case["target"] not in d:
+            ev.add("dij:target-unreachable")
+    elif fn in ("bfs_edges", "dfs_edges"):
+        s, t = case["source"], case["target"]
+        lev = ref_levels(n, E, s)
+        if fn == "bfs_edges":
+            if any(u == v for u, v in E):
+                ev.add("bfs:self-loop")
+            if t is not None and t not in lev:
+                ev.add("bfs:unreachable")
+            if t is not None and lev.get(t, 0) >= 3:
+                ev.add("bfs:target-at-depth>=3")
+            if any(sum(1 for u, v in set(E) if v == x and lev.get(u) == lev[x] - 1) >= 2 for x in lev if x != s):
+                ev.add("bfs:multi-parent-choice")
+        else:
+            if t is not None and t not in lev:
+                ev.add("dfs:unreachable")
+            # pop-marking DFS (rust) vs push-marking DFS (python): visit orders
+            def order(pop_marking):
+                seen, out, st = set() if pop_marking else {s}, [], [s]
+                pushes = {}
+                while st:
+                    x = st.pop()
+                    if pop_marking:
+                        if x in seen:
+                            continue
+                        seen.add(x)
+                    out.append(x)
+                    ns = adj.get(x, [])
+                    for y in (reversed(ns) if pop_marking else ns):
+                        if y not in seen:
+                            if not pop_marking:
+                                seen.add(y)
+                            pushes[y] = pushes.get(y, 0) + 1
+                            st.append(y)
+                return out, pushes
+            o1, p1 = order(True)
+            o2, _ = order(False)
+            if any(v >= 2 for v in p1.values()):
+                ev.add("dfs:multi-push")
+            if o1 != o2:
+                ev.add("dfs:push-vs-pop-marking-differ")
+            if t is not None and t in lev and lev[t] >= 1 and len(o1) > lev[t] + 1 and t in o1 and o1.index(t) > lev[t]:
+                ev.add("dfs:path-longer-than-shortest")
+    elif fn == "kruskal":
+        par = list(range(n))
+        rank = [0] * n
+
+        def find(x):
+            while par[x] != x:
+                x = par[x]
+            return x
+
+        def height(x):
+            h = 0
+            while par[x] != x:
+                x, h = par[x], h + 1
+            return h
+        k = 0
+        srt = sorted(E, key=lambda e: e[2])
+        if len({e[2] for e in E}) < len(E):
+            ev.add("kr:weight-ties")
+        for i, (u, v, w) in enumerate(srt):
+            a, b = find(u), find(v)
+            if a == b:
+                ev.add("kr:rejected-edge")
+                continue
+            if rank[a] == rank[b]:
+                ev.add("kr:equal-rank-union")
+                rank[a] += 1
+                par[b] = a
+            elif rank[a] < rank[b]:
+                par[a] = b
+            else:
+                par[b] = a
+            k += 1
+            if max(height(x) for x in range(n)) >= 3:
+                ev.add("kr:uf-height>=3")
+            if k == n - 1:
+                if i < len(srt) - 1:
+                    ev.add("kr:early-break")
+                break
+        if k < n - 1:
+            ev.add("kr:forest")
+    elif fn == "pagerank_edges":
+        outd = [0] * n
+        for u, v in E:
+            outd[u] += 1
+        ev.add("pr:dangling" if any(x == 0 for x in outd) else "pr:no-dangling")
+        if len(set(E)) < len(E):
+            ev.add("pr:parallel-edges")
+        if any(u == v for u, v in E):
+            ev.add("pr:self-loop")
+        if 1 <= case["max_iter"] <= 40 and Fraction(case["damping"]).denominator <= 2 ** 20:
+            ex, _ = pr_reference(n, E, case["damping"], case["max_iter"])
+            first = next((k + 1 for k, (_, md) in enumerate(ex) if md < case["tol"]), None)
+            if first == case["max_iter"]:
+                ev.add("pr:converges-at-max_iter")
+    elif fn == "strongly_connected_components_edges":
+        comps = ref_scc(n, E)
+        if any(u == v and frozenset([u]) in comps for u, v in E):
+            ev.add("scc:singleton-self-loop")
+        comp_of = {v: c for c in comps for v in c}
+        if any(len(c) >= 4 and sum(1 for u, v in set(E) if u in c and v in c and u != v) >= len(c) + 2 for c in comps):
+            ev.add("scc:nested-cycles")
+        # Tarjan replay for cross / on-stack edges
+        idx, low, st, on, cnt = {}, {}, [], set(), [0]
+
+        def sc(v):
+            idx[v] = low[v] = cnt[0]
+            cnt[0] += 1
+            st.append(v)
+            on.add(v)
+            for w in adj.get(v, ()):
+                if w not in idx:
+                    sc(w)
+                    low[v] = min(low[v], low[w])
+                elif w in on:
+                    if w != v and idx[w] < low[v]:
+                        ev.add("scc:lowlink-via-on-stack")
+                    low[v] = min(low[v], idx[w])
+                else:
+                    ev.add("scc:cross-edge-to-finished")
+            if low[v] == idx[v]:
+                while True:
+                    w = st.pop()
+                    on.discard(w)
+                    if w == v:
+                        break
+        for v in range(n):
+            if v not in idx:
+                sc(v)
+        del comp_of
+    elif fn == "topological_sort_edges":
+        if len(set(E)) < len(E):
+            ev.add("topo:parallel-edges")
+
+        def kahn(lifo):
+            deg = [0] * n
+            for u, v in E:
+                deg[v] += 1
+            q = [v for v in range(n) if deg[v] == 0]
+            out, mx = [], len(q)
+            while q:
+                u = q.pop() if lifo else q.pop(0)
+                out.append(u)
+                for v in adj.get(u, ()):
+                    deg[v] -= 1
+                    if deg[v] == 0:
+                        q.append(v)
+                mx = max(mx, len(q))
+            return out, mx
+        a, mx = kahn(False)
+        b, _ = kahn(True)
+        if mx >= 3:
+            ev.add("topo:queue>=3")
+        if len(a) == n and a != b:
+            ev.add("topo:orders-differ-fifo-lifo")
+        if 0 < len(a) < n and len(a) >= 2:
+            ev.add("topo:cycle-behind-dag-prefix")
+    return ev
+
+
+def event_topup(rng, cases, want=4, tries=600):
+    """-> (extra cases, coverage counter).  For every event seen fewer than `want` times, draw candidates from all generators of that function
+    (mutating the best ones: add / drop / reweight an edge) and keep those that trigger the missing event."""
+    cov = {}
+    for c in cases:
+        for e in events(c):
+            cov[e] = cov.get(e, 0) + 1
+    extra = []
+    for fn, evs in EVENTS.items():
+        missing = [e for e in evs if cov.get(e, 0) < want]
+        pool = []
+        t = 0
+        while missing and t < tries:
+            t += 1
+            r = rng.random()
+            if pool and r < 0.4:
+                c = mutate_case(rng, rng.choice(pool))
+            elif r < 0.7:
+                c = gen_history(rng, fn)
+            elif r < 0.85:
+                c = gen_option_corner(rng, fn) if fn == "pagerank_edges" else gen_case(rng, fn, True)
+            else:
+                c = gen_case(rng, fn)
+            es = events(c)
+            hit = [e for e in missing if e in es]
+            if hit:
+                c["_family"] = "H-event:" + hit[0]
+                extra.append(c)
+                pool.append(c)
+                for e in es:
+                    cov[e] = cov.get(e, 0) + 1
+                missing = [e for e in evs if cov.get(e, 0) < want]
+            elif es and rng.random() < 0.1:
+                pool.append(c)
+                pool = pool[-30:]
+    return extra, cov
+
+
+def mutate_case(rng, case):
+    c = {k: (list(v) if k == "edges" else v) for k, v in case.items()}
+    n = c["n"]
+    E = c["edges"]
+    three = bool(E) and len(E[0]) == 3
+    r = rng.random()
+    if n == 0:
+        return c
+    if r < 0.4 or not E:
+        u, v = rng.randrange(n), rng.randrange(n)
+        w = rng.randint(-2 if c["fn"] in ("floyd_warshall", "bellman_ford") else 0, 6)
+        E.insert(rng.randint(0, len(E)), (u, v, w) if (three or (not E and c["fn"] in W_FNS)) else (u, v))
+    elif r < 0.6:
+        E.pop(rng.randrange(len(E)))
+    elif r < 0.8 and three:
+        i = rng.randrange(len(E))
+        E[i] = (E[i][0], E[i][1], rng.randint(-2 if c["fn"] in ("floyd_warshall", "bellman_ford") else 0, 6))
+    else:
+        rng.shuffle(E)
+    if c.get("target") is not None and rng.random() < 0.2:
+        c["target"] = rng.randrange(n)
+    if c["fn"] == "pagerank_edges" and rng.random() < 0.5:
+        c["max_iter"] = rng.randint(1, 40)
+    return c
 
 
 # ====================================================================== class S, large: answers known by construction
@@ -1738,6 +2069,13 @@ def run(ctx: Ctx):
     for c in hard:
         ctx.count("family", c["_family"].split("-")[0] + ":" + c["fn"].replace("_edges", ""))
     cases += hard
+    extra, cov = event_topup(ctx.rng, cases)
+    for c in extra:
+        ctx.count("family", "H-event:" + c["fn"].replace("_edges", ""))
+    cases += extra
+    for fn_, evs in EVENTS.items():
+        for e in evs:
+            ctx.count("events", e, cov.get(e, 0))
 
     results = []
     n_viol = 0
@@ -1781,7 +2119,12 @@ def run(ctx: Ctx):
             ctx.violation(f"structured large instance {name}{tuple(args)} (answer known by construction): {r[1][0]}", {"big": name, "args": args, "all": r[1][:6]})
 
     # ---- class A: one shared input object through consecutive calls (different functions / options / back-ends, random order)
-    seqs = [gen_sequence(ctx.rng) for _ in range(ctx.budget(160, 1500))]
+    seqs = []
+    for f in sorted((VERIF / "corpus" / "C12").glob("*.json")) if (VERIF / "corpus" / "C12").exists() else []:
+        o = json.loads(f.read_text())
+        if o.get("seq"):
+            seqs.append(dict(o["seq"], edges=[tuple(e) for e in o["seq"]["edges"]]))
+    seqs += [gen_sequence(ctx.rng) for _ in range(ctx.budget(160, 1500))]
     n_bad = 0
     for q, recs in zip(seqs, run_sequences(seqs)):
         ctx.evaluations += 2 * len(q["steps"])
